@@ -1,5 +1,6 @@
 import LanceModel.C34.SegHigh
 import LanceModel.C34.IndexNew
+import LanceModel.C34.EncLemmas
 /-!
 # C34 — row id sequences and the row id index are faithful
 
@@ -101,6 +102,15 @@ theorem with_new_high_faithful (s : Seg) (hw : s.WF) (v : Nat) :
 example : (Seg.range 5 8).withNewHigh 12 = some (some (.holes 5 13 [8, 9, 10, 11])) ∧
     (Seg.bitmap 5 9 [true, false, true, true]).withNewHigh 10 = some (some (.bitmap 5 11 [true, false, true, true, false, true])) ∧
     (Seg.range 5 8).withNewHigh 7 = some none := by decide
+
+/-- `EncodedU64Array::from(Vec<u64>)` — the physical array behind `SortedArray`, `Array` and the holes list — decodes to
+    the values it was built from, whichever offset width (u16 / u32 / plain u64) it picks, and the offsets fit that width -/
+theorem encoded_array_faithful (vals : List Nat) :
+    (Enc.ofList vals).toList = vals ∧ (Enc.ofList vals).Fits ∧ ∀ i, (Enc.ofList vals).get i = vals[i]? :=
+  Enc.ofList_spec vals
+
+example : Enc.ofList [65542, 7, 9] = .u16 7 [65535, 0, 2] ∧ Enc.ofList [7, 65543] = .u32 7 [0, 65536] ∧
+    Enc.ofList [4294967296, 0] = .u64 [4294967296, 0] := by decide
 
 /-! ## Part 2: sequences (`RowIdSequence`) -/
 
